@@ -567,6 +567,45 @@ impl Local {
     }
 }
 
+#[cfg(feature = "circ_verif")]
+impl Local {
+    /// (guard count, handle count, raw local epoch)
+    pub(crate) fn verif_state(&self) -> (usize, usize, usize) {
+        (
+            self.guard_count.get(),
+            self.handle_count.get(),
+            self.epoch.load(Ordering::Relaxed).verif_data(),
+        )
+    }
+}
+
+#[cfg(feature = "circ_verif")]
+pub(crate) fn set_bag_capacity(n: usize) {
+    unsafe { MAX_OBJECTS = n }
+}
+
+#[cfg(feature = "circ_verif")]
+pub(crate) fn set_manual_interval(n: usize) {
+    unsafe { MANUAL_EVENTS_BETWEEN_COLLECT = n }
+}
+
+#[cfg(feature = "circ_verif")]
+pub(crate) fn set_epoch(global: &Global, value: usize) {
+    global
+        .epoch
+        .store(Epoch::verif_from_value(value), Ordering::SeqCst)
+}
+
+#[cfg(feature = "circ_verif")]
+pub(crate) fn epoch_addr(global: &Global) -> usize {
+    &*global.epoch as *const AtomicEpoch as usize
+}
+
+#[cfg(feature = "circ_verif")]
+pub(crate) fn queue_is_empty(global: &Global, guard: &Guard) -> bool {
+    global.queue.verif_is_empty(guard)
+}
+
 impl IsElement<Local> for Local {
     fn entry_of(local: &Local) -> &Entry {
         let entry_ptr = (local as *const Local as usize + offset_of!(Local, entry)) as *const Entry;
